@@ -27,7 +27,8 @@ EXPLANATION = ("Matrices with fully symbolic entries (complex n x 1 for n <= 3, 
                "library contract of svd/eig (symbolic factors) the real peig/leig/least_right_singular_vectors/"
                "get_principal_component_matrix return exactly the columns/values their names say (real argsort on symbolic values, one "
                "path per ordering).  Sherman-Morrison diagonal update equals the true inverse (2x2 symbolic; larger sizes bounded).  dB/linear/dBm/EbN0 "
-               "conversions mutually inverse for all reals.  GMD, whitening, QR/SVD-based distances are bounded native checks.")
+               "conversions mutually inverse for all reals.  GMD for p >= 4 and QR/SVD-based distances are bounded native checks; whitening / decorrelation are proved through the eig "
+               "contract for distinct eigenvalues (R = V diag(L) V^H, V any orthogonal / unitary matrix written with angle atoms).")
 ASSUMPTIONS = [
     "np.linalg.inv/solve contract (adjugate/determinant, det != 0 as requires = full column rank); svd/eig outputs uninterpreted "
     "symbolic factors in the selector obligations",
@@ -507,6 +508,46 @@ def ob_native():
             return {"update_inv_sum_diag": float(np.abs(out @ (Am + np.diag(dd)) - np.eye(n)).max())}
         return None
     return bounded(gen(), check)
+
+
+@obligation("whitening/identity_through_the_eig_contract", params=[{"kind": k} for k in ("r2", "r3", "c2")], timeout=300,
+            desc="calc_whitening_matrix / calc_decorrelation_matrix with np.linalg.eig under its library contract for Hermitian positive "
+                 "definite matrices with DISTINCT eigenvalues: R := V diag(L) V^H with every orthogonal / unitary V of the size (angle atoms, "
+                 "as in C04) and symbolic L_i > 0 - every such covariance is of this form and eig applied to exactly this R returns (L, V) up "
+                 "to the order / phase of the columns, which the identities below do not depend on: W^H R W == I for the whitening matrix "
+                 "W = V diag(1/sqrt L) (sqrt(x)^2 = x), D^H R D == diag(L) and D^H D == I for the decorrelation matrix.  (Repeated eigenvalues, "
+                 "where numpy's eig does not return orthogonal vectors, are the recorded known finding.)")
+def ob_whitening_eig(kind):
+    def body(c, it):
+        import pyphysim.util.misc as misc
+        from .C04 import _unitary
+        n = int(kind[1])
+        V = _unitary(c, "V", n, "r" if kind[0] == "r" else "c")
+        L = np.empty(n, dtype=object)
+        for i in range(n):
+            L[i] = c.var("l%d" % i, "real")
+            c.assume(L[i] > 0)
+        D = np.zeros((n, n), dtype=object)
+        for i in range(n):
+            D[i, i] = L[i]
+        R = V.dot(D).dot(_conjT(V))
+        calls = []
+
+        def m_eig(interp, A):
+            A = np.asarray(A, dtype=object)
+            calls.append(A.shape == R.shape and all(a is b or bool(z3.is_true(z3.simplify(cfrac_eq(a, b).t))) for a, b in zip(A.flat, R.flat)))
+            return L.copy(), V.copy()
+        it.models[np.linalg.eig] = m_eig
+        W = np.asarray(it.call(misc.calc_whitening_matrix, [R]), dtype=object)
+        goals = [Goal("eig asked for the covariance itself", calls == [True]), Goal("whitening matrix n x n", W.shape == (n, n))]
+        if W.shape != (n, n):
+            return goals
+        goals.append(Goal("W^H R W == I", _meq(_conjT(W).dot(R).dot(W), np.eye(n, dtype=object))))
+        Dm = np.asarray(it.call(misc.calc_decorrelation_matrix, [R]), dtype=object)
+        goals.append(Goal("decorrelation: D^H R D == diag(L)", _meq(_conjT(Dm).dot(R).dot(Dm), D)))
+        goals.append(Goal("decorrelation: D^H D == I", _meq(_conjT(Dm).dot(Dm), np.eye(n, dtype=object))))
+        return goals
+    return verify(body, check_side=False, timeout_ms=120000)
 
 
 @obligation("native/whitening_distinct_eigenvalues", kind="bounded",
